@@ -1285,8 +1285,8 @@ def derived_observable(func, data, array_mode=False, **kwargs):
         """
         scalef_d = {}
         for mc_name in obs.mc_names:
-            mc_idl_d = [name for name in obs.idl if name.startswith(mc_name + '|')]
-            new_mc_idl_d = [name for name in new_idl_d if name.startswith(mc_name + '|')]
+            mc_idl_d = [name for name in obs.idl if name.split('|')[0] == mc_name]
+            new_mc_idl_d = [name for name in new_idl_d if name.split('|')[0] == mc_name]
             if len(mc_idl_d) > 0 and len(mc_idl_d) < len(new_mc_idl_d):
                 scalef_d[mc_name] = sum([len(new_idl_d[name]) for name in new_mc_idl_d]) / sum([len(new_idl_d[name]) for name in mc_idl_d])
         return scalef_d
